@@ -135,6 +135,23 @@ class Exec(StmtMixin):
         for h in c.hooks:
             if h[0] in ("before", "after", "after-await") and not any(fnmatch.fnmatchcase(t, h[1]) for t in texts):
                 raise BindingError("hook pattern %r of %s matches no call in the function" % (h[1], c.qual))
+        # c.immutable("Class.field"): the field is assigned nowhere in the package except in the real class's __init__
+        for loc in getattr(c, "immutable_", []):
+            cls, _, fld = loc.partition(".")
+            cm = C.CLASSES.get(cls)
+            real = cm.real.split(":")[1] if cm is not None and cm.real else cls
+            from . import source as _src
+            bad = []
+            for f, ln, kc, kf, recv, bases in _src.attribute_stores().get(fld, []):
+                if recv == "self" and kc == real and kf == "__init__":
+                    continue            # the constructor
+                if recv == "self" and kc is not None and kc != real and real not in bases:
+                    continue            # `self.<field>` of an unrelated class: another field of the same name
+                bad.append((f, ln))
+            if bad:
+                raise BindingError("%s declares %s immutable but it is assigned at %s" % (
+                    c.qual, loc, ", ".join("%s:%d" % b for b in bad[:5])))
+            self.note("field %s: assigned only in %s.__init__ (syntactic scan of the package, setattr not seen)" % (loc, real))
         body = self.fnode.body
         frag = getattr(c, "fragment_", None)
         if frag is not None:
